@@ -544,11 +544,9 @@ pub fn check_trace(s: &Script, tr: &Trace, rep: &mut Report) -> Outcome {
                                         }
                                     } else if let Some((_, ne)) = &new_admission {
                                         // evicted to make room for the new key of this step
-                                        let room = max_cost as i128 - (used_model + ne.charge as i128);
-                                        if room >= 0 {
-                                            fail!("C07", "evict/although-room", "key {key} evicted for new key {} although room {room} >= 0", ne.key);
-                                            also!("C04", "evict/although-room", format!("key {key} evicted although everything fits"));
-                                        }
+                                        // (whether every one of these evictions was needed is decided after the step's
+                                        // callbacks, independently of the order in which the victims are reported)
+                                        let _ = ne;
                                         out.evicted_for_room += 1;
                                         room_evictions.push((*index, e.charge));
                                     } else {
@@ -584,6 +582,17 @@ pub fn check_trace(s: &Script, tr: &Trace, rep: &mut Report) -> Outcome {
                     }
                 }
                 EvKind::Mutate { .. } => {}
+            }
+        }
+        // C07 "evicted one at a time only while room is still lacking": whichever victim the policy took
+        // last, room was still lacking without it; so with all victims gone the room may not reach the
+        // cost of the dearest of them (the callbacks need not come in the order of selection)
+        if let (Some((_, ne)), false) = (&new_admission, room_evictions.is_empty()) {
+            let final_room = max_cost as i128 - (used_model + ne.charge as i128);
+            let dearest = room_evictions.iter().map(|v| prev_policy.get(&v.0).copied().unwrap_or(v.1) as i128).max().unwrap_or(0);
+            if final_room - dearest >= 0 {
+                fail!("C07", "evict/although-room", "{} entries evicted for new key {} (charge {}): even without the dearest of them (charge {dearest}) room would have been {} >= 0", room_evictions.len(), ne.key, ne.charge, final_room - dearest);
+                also!("C04", "evict/although-room", format!("{} entries evicted although everything fits", room_evictions.len()));
             }
         }
         if let Some((index, ne)) = new_admission.take() {
